@@ -26,7 +26,8 @@ def run(ctx, res):
     nd = n * 7 // 10
     # six short directed histories first: gwcheck re-evaluates the first six sessions inside Coq (vm_compute), which is slow
     cases = scenarios.directed_cases(ctx, "c07x", 6, scenarios.sleep_history, scenarios.SLEEP_VERSIONS, length=(10, 16))
-    cases += scenarios.directed_cases(ctx, "c07s", nd - 6, scenarios.sleep_history, scenarios.SLEEP_VERSIONS)
+    cases += scenarios.corpus_cases(ID)
+    cases += scenarios.directed_cases(ctx, "c07s", nd - len(cases), scenarios.sleep_history, scenarios.SLEEP_VERSIONS)
     cases += gwcheck.gen_cases(ctx, "c07g", n - nd, length=(20, 60), versions=scenarios.SLEEP_VERSIONS)
     recs = gwcheck.run_cases(ctx, res, cases, ["c07"], SCOPE, "c07")
     reach = {"withheld": 0, "burst": 0, "stream_to_sleeper": 0, "ends_with_sleeper": 0, "awake_while_sleep": 0}
